@@ -283,6 +283,19 @@ def run(ck):
             if n <= 2:
                 ew.append(('r2047', b'=?x?b?QQ==?= =?x?B?' + bytes(t) + b'?= t'))
     compare(ck, ew, drv, model, 'exhaustive encoded-word payloads<=%d' % maxlen, stats)
+    # encoded words of every payload length up to 300 (and a few much longer ones): no length is special - RFC 2047's 75-character
+    # limit binds the writer, a reader decodes what it gets -, with B payloads that are whole quanta, padded, and malformed
+    lw = []
+    import base64 as _b64
+    for n in list(range(0, 301)) + [1000, 4000, 9000]:
+        raw = bytes((i * 7 + n) % 95 + 32 for i in range(n))
+        enc = _b64.b64encode(raw)
+        lw.append(('r2047', b'=?UTF-8?B?' + enc + b'?='))
+        lw.append(('r2047', b'x =?utf-8?b?' + enc + b'?= =?utf-8?B?' + enc[:8] + b'?= y'))
+        lw.append(('r2047', b'=?x?B?' + (b'QUJD' * n)[:n] + b'?='))
+        lw.append(('r2047', b'=?x?Q?' + (b'a=41_b' * n)[:n] + b'?='))
+        lw.append(('r2047', b'=?' + b'c' * n + b'?q?' + b'=5F' * (n % 7) + b'?= =?x?b?' + enc[:n - n % 4] + b'?='))
+    compare(ck, lw, drv, model, 'encoded words of every length up to 300', stats)
     nrand = 4000 if ck.tier == 'quick' else 200000
     rnd = []
     for i in range(nrand):
@@ -297,7 +310,7 @@ def run(ck):
     ck.coverage.update({
         'evaluations': stats['evaluations'],
         'distinct_nontrivial': len(stats['nontrivial']),
-        'rule': 'all strings of length <= %d over the alphabet %r for each of the 3 decoders (exhaustive), every Q encoded word whose payload is a string of that length over "=_5F23Dfa " and every B encoded word over "QUA=/ x" (alone and next to a second word), '
+        'rule': 'all strings of length <= %d over the alphabet %r for each of the 3 decoders (exhaustive), every Q encoded word whose payload is a string of that length over "=_5F23Dfa " and every B encoded word over "QUA=/ x" (alone and next to a second word), encoded words of every payload length 0-300 and 1000 / 4000 / 9000 (B whole quanta, B cut anywhere, Q, long charset), '
                 'plus %d structured random strings per decoder (valid quanta, padding variants, foreign characters, '
                 'truncations, encoded-word fragments); non-trivial = contains >= 2 alphabet characters (b64), an "=" (qp), '
                 'an "=?" (rfc2047); distinct = distinct (decoder, input) pairs' % (maxlen, ALPHABET.decode(), nrand),
